@@ -66,8 +66,8 @@ def run(chk):
                        "(through the UnitCell accessors), rounding direction, accumulation seeds and slab inclusiveness, "
                        "coordinate-space tags of the operands, block alignment of slab(), and exclusion of the centre's own atoms.")
     chk.rule("R03.1", "the fractional half-extent of a Cartesian ball of radius r along axis i is r * |a*_i| (not r / |a_i|)", 7)
-    chk.rule("R03.2", "cell range: upper bound ceil(p + e), lower bound floor(p - e), accumulated with max/min from -inf/+inf, slab inclusive", 20)
-    chk.rule("R03.3", "coordinate spaces: ceil/floor see fractional centres; KD-trees are built on and queried with Cartesian points", 12)
+    chk.rule("R03.2", "cell range: upper bound ceil(p + e), lower bound floor(p - e), accumulated with max/min from -inf/+inf, slab inclusive", 12)
+    chk.rule("R03.3", "coordinate spaces: ceil/floor see fractional centres; KD-trees are built on and queried with Cartesian points", 7)
     chk.rule("R03.4", "slab alignment: position block i and cell block i share one slice; other columns are tiled cell-major", 6)
     chk.rule("R03.5", "the centre's own atoms are excluded by a distance threshold and all reported arrays share the keep index", 8)
     resolver = uc_resolver(chk)
@@ -75,8 +75,31 @@ def run(chk):
     for q in SITES:
         chk.saw(CR, "Crystal." + q)
     if chk.want("R03.1") or chk.want("R03.2") or chk.want("R03.3"):
+        # helper methods that turn (centres, radius) into a cell range are sites of their own
+        helpers = {}
+        for fn in cr.methods("Crystal"):
+            if fn.name in SITES or not any(isinstance(n, (ast.Name, ast.Attribute)) and getattr(n, "id", getattr(n, "attr", None)) in ("ceil", "floor")
+                                          for n in ast.walk(fn)):
+                continue
+            hev = cr.ev("Crystal." + fn.name)
+            if extent_calls(hev):
+                helpers[fn.name] = hev
+        for h, hev in helpers.items():
+            chk.saw(CR, "Crystal." + h)
+            extent_rules(chk, cr, h, hev, resolver, helper=True)
         for q in SITES:
-            extent_rules(chk, cr, q, evs[q], resolver)
+            if extent_calls(evs[q]):
+                extent_rules(chk, cr, q, evs[q], resolver)
+            else:
+                delegation_rules(chk, cr, q, evs[q], helpers, resolver)
+        # vacuity guard per site (obligation totals change legitimately when the range computation is shared)
+        for rid in ("R03.1", "R03.2", "R03.3"):
+            if chk.want(rid):
+                for q in SITES:
+                    if rid == "R03.2" and q not in SLAB_SITES:
+                        continue
+                    chk.need(any(o.rule == rid and o.function == "Crystal." + q for o in chk.obs),
+                             f"{rid}: site Crystal.{q} produced no obligation")
     if chk.want("R03.2") or chk.want("R03.4"):
         slab_rules(chk, cr)
     if chk.want("R03.5"):
@@ -89,7 +112,8 @@ def run(chk):
     chk.assume("a Cartesian ball of radius r spans |delta frac_i| <= r * |column i of the inverse matrix| (exact geometry)")
 
 
-def extent_rules(chk, cr, q, ev, resolver):
+def extent_calls(ev):
+    """[(ceil|floor, atom, (extent, centre, radius atom), event)] : rounding of (position +- radius-proportional extent)."""
     params = [p for p in ev.param_names if p != "self"]
     rparams = [p for p in params if "radius" in p or p in ("r", "cutoff")] or params
     found = []
@@ -105,6 +129,62 @@ def extent_rules(chk, cr, q, ev, resolver):
             if sp is None:
                 continue
             found.append((call_name(a), a, sp, e))
+    return found
+
+
+def reducer_of(p: P):
+    """centre = X.max(axis=0) / numpy.max(X, axis=0) / X.min(...) -> (X, 'max'|'min', axis) ; otherwise (p, None, None)."""
+    a = p.as_atom()
+    if a and a[0] == "call":
+        cn = call_name(a)
+        kw = dict(a[3]) if len(a) > 3 else {}
+        if cn in (".max", ".min", ".amax", ".amin"):
+            base = a[1].as_atom()[1]
+            ax = kw.get("axis") or (a[2][0] if a[2] else None)
+            return base, "max" if "max" in cn else "min", (ax.const_value() if ax is not None else None)
+        if cn in ("numpy.max", "numpy.min", "numpy.amax", "numpy.amin") and a[2]:
+            ax = kw.get("axis") or (a[2][1] if len(a[2]) > 1 else None)
+            return a[2][0], "max" if "max" in cn else "min", (ax.const_value() if ax is not None else None)
+    return p, None, None
+
+
+def delegation_rules(chk, cr, q, ev, helpers, resolver):
+    """API function q leaves the cell range to a helper method that is itself checked as a site."""
+    calls = [e for e in ev.events if e.kind == "call" and e.target is not None and e.target.as_atom() and e.target.as_atom()[0] == "attr"
+             and e.target.as_atom()[1].key() == "self" and e.target.as_atom()[2] in helpers]
+    if not calls:
+        raise AnalysisError(f"{CR}:Crystal.{q}: no ceil/floor of (position +- radius-extent) found at an enumerated site")
+    params = [p for p in ev.param_names if p != "self"]
+    rparams = [p for p in params if "radius" in p or p in ("r", "cutoff")] or params
+    for e in calls:
+        h = e.target.as_atom()[2]
+        hev = helpers[h]
+        hp = [p for p in hev.param_names if p != "self"]
+        args = dict(zip(hp, e.extra["args"]))
+        args.update({k: v for k, v in e.extra["kwargs"]})
+        hr = [p for p in hp if "radius" in p or p in ("r", "cutoff")]
+        chk.need(hr, f"Crystal.{h}: no radius parameter")
+        r = args.get(hr[0])
+        if chk.want("R03.1"):
+            chk.ob("R03.1", CR, "Crystal." + q, f"the caller's radius reaches {h}() unchanged (the extent is decided there)",
+                   r is not None and r.as_atom() is not None and r.as_atom()[0] == "name" and r.as_atom()[1] in rparams, node=e.node,
+                   fingerprint=f"delegate-radius:{h}", found=str(r))
+        centre = [v for k, v in args.items() if k not in hr]
+        if chk.want("R03.3"):
+            for c in centre[:1]:
+                sp = space_of(c)
+                chk.ob("R03.3", CR, "Crystal." + q, f"{h}() receives fractional centres", sp != "cart", node=e.node,
+                       fingerprint=f"delegate-space:{h}", expected="fractional coordinates", found=f"{c} tagged {sp}", nontrivial=sp is not None)
+        if chk.want("R03.2") and q in SLAB_SITES:
+            slab_calls = [x for x in ev.events if x.kind == "call" and call_name(x.value.as_atom() or ()) == ".slab"]
+            chk.need(slab_calls, f"Crystal.{q}: call to slab not found")
+            b = dict(slab_calls[0].extra["kwargs"]).get("bounds") or (slab_calls[0].extra["args"][0] if slab_calls[0].extra["args"] else None)
+            chk.ob("R03.2", CR, "Crystal." + q, f"slab is asked for exactly the bounds {h}() returns", b is not None and b.key() == e.value.key(),
+                   node=slab_calls[0].node, fingerprint="slab-bounds", found=str(b)[:120])
+
+
+def extent_rules(chk, cr, q, ev, resolver, helper=False):
+    found = extent_calls(ev)
     if not found:
         raise AnalysisError(f"{CR}:Crystal.{q}: no ceil/floor of (position +- radius-extent) found at an enumerated site")
     for kind, a, (E, p, ratom), e in found:
@@ -146,11 +226,18 @@ def extent_rules(chk, cr, q, ev, resolver):
                    fingerprint=f"space:{kind}", expected="fractional coordinates", found=f"{p} tagged {sp}", nontrivial=sp is not None)
     if chk.want("R03.2"):
         # ceil and floor use the same centre and the same extent
-        ce = [(E, p) for k, a, (E, p, r), e in found if k == "ceil"]
-        fl = [(E, p) for k, a, (E, p, r), e in found if k == "floor"]
+        ce = [(E, reducer_of(p)) for k, a, (E, p, r), e in found if k == "ceil"]
+        fl = [(E, reducer_of(p)) for k, a, (E, p, r), e in found if k == "floor"]
         chk.ob("R03.2", CR, "Crystal." + q, "upper and lower bounds use the same centre and the same extent",
-               bool(ce) and bool(fl) and {(E.key(), p.key()) for E, p in ce} == {((-E).key(), p.key()) for E, p in fl},
-               fingerprint="pair", found=f"ceil {[(str(E), str(p)) for E, p in ce]} floor {[(str(E), str(p)) for E, p in fl]}")
+               bool(ce) and bool(fl) and {(E.key(), p[0].key()) for E, p in ce} == {((-E).key(), p[0].key()) for E, p in fl},
+               fingerprint="pair", found=f"ceil {[(str(E), str(p[0])) for E, p in ce]} floor {[(str(E), str(p[0])) for E, p in fl]}")
+        red = [("ceil", p) for _, p in ce if p[1]] + [("floor", p) for _, p in fl if p[1]]
+        if red:
+            okr = all((k == "ceil" and p[1] == "max" or k == "floor" and p[1] == "min") and p[2] == 0 for k, p in red) and \
+                len(red) == len(ce) + len(fl)
+            chk.ob("R03.2", CR, "Crystal." + q, "the upper bound rounds up the largest coordinate over the centre's atoms, the lower bound rounds "
+                   "down the smallest (reduction over atoms, axis 0)", okr, fingerprint="reduce",
+                   expected="ceil(max(axis=0) + e), floor(min(axis=0) - e)", found=str([(k, p[1], p[2]) for k, p in red]))
         # accumulation: maximum with ceil seeded -inf; minimum with floor seeded +inf
         for e in ev.events:
             if e.kind != "assign" or e.value is None:
@@ -170,7 +257,17 @@ def extent_rules(chk, cr, q, ev, resolver):
                        kinds == ({"ceil"} if mx else {"floor"}) and seed_ok, node=e.node,
                        fingerprint=f"accumulate:{'max' if mx else 'min'}", found=f"{call_name(a)} of {sorted(kinds)} seeded {seed}")
         # slab bounds: (lower from floor, upper from ceil), no shrinking
-        if q in SLAB_SITES:
+        if helper:
+            it = seq_items(ev.returns[-1].value) if ev.returns else None
+            ok = False
+            desc = None
+            if it and len(it) == 2:
+                lo_k, hi_k = bound_kind(it[0], ev), bound_kind(it[1], ev)
+                ok = lo_k == "floor" and hi_k == "ceil"
+                desc = f"lower from {lo_k}, upper from {hi_k}"
+            chk.ob("R03.2", CR, "Crystal." + q, "the helper returns (lower = floor-derived, upper = ceil-derived) cells", ok,
+                   fingerprint="slab-bounds", found=desc)
+        elif q in SLAB_SITES:
             slab_calls = [e for e in ev.events if e.kind == "call" and call_name(e.value.as_atom() or ()) == ".slab"]
             chk.need(slab_calls, f"Crystal.{q}: call to slab not found")
             for e in slab_calls[:1]:
